@@ -1,0 +1,10 @@
+//go:build verif
+
+package parser
+
+// Contracts for the parser, checked by /verif/bin/plushvc (see /verif/DESIGN.md). Comment-only.
+
+//@ func Parse
+//@ trusted
+//@ ensures ok: err == nil ==> result != nil
+//@ assigns fresh
